@@ -3,3 +3,5 @@ from .. import convcheck
 
 def run(ctx):
     convcheck.run(ctx, "C03")
+    from .. import walks
+    walks.run(ctx, {"CoerceAs"}, "forced conversions inside chains of operations", seed_offset=3)
